@@ -50,11 +50,12 @@ Definition admon_region (l : list str) : nat :=
   if existsb pretext_region l then 1 else if admon_ok l then 0 else 2.
 
 (* Spec on the implementation's output: no word dropped, duplicated or reordered; an exception
-   is not a silent loss (C03_admon_errors) *)
+   is not a silent loss, but on clean lines only the two documented exceptions may occur
+   (C03_admon_errors / C03_admon_total) *)
 Definition admon_spec_ok (l : list str) (i : list str + nat) : bool :=
   match i with
   | inl out => list_eqb str_eqb (words out) (spec_words l)
-  | inr _ => true
+  | inr n => negb (admon_ok l) || Nat.eqb n 1 || Nat.eqb n 2
   end.
 
 Definition judge_admon (c : list str * (list str + nat)) : nat :=
